@@ -372,13 +372,13 @@ Section Loop.
                       (f b0 * f b1 < 0 -> r_tol < Rabs (f b0) -> r_tol < Rabs (f b1) -> Rabs (f (clipR x0 b0 b1)) <= r_tol ->
                          x = Some (clipR x0 b0 b1) /\ it = 0)).
       { split; [|split].
-        - intros H1. destruct Hcase as [(_ & A & B)|[(A & _)|(A & _)]]; try lra.
-          rewrite (Hstart A) in Hr. inversion Hr; subst. rewrite B. auto.
-        - intros H0 H1. destruct Hcase as [(A & _)|[(_ & _ & A & B)|(_ & A & _)]]; try lra.
-          rewrite (Hstart A) in Hr. inversion Hr; subst. rewrite B. auto.
-        - intros _ H0 H1 H2. destruct Hcase as [(A & _)|[(_ & A & _)|(_ & _ & _ & B & A)]]; try lra.
+        - intros H1. destruct Hcase as [(_ & A & B)|[(A & _)|(A & _)]]; try (exfalso; lra).
+          rewrite (Hstart A) in Hr. injection Hr as Hx _ Hit _ _ _. rewrite <- Hx, <- Hit, B. auto.
+        - intros H0 H1. destruct Hcase as [(A & _)|[(_ & _ & A & B)|(_ & A & _)]]; try (exfalso; lra).
+          rewrite (Hstart A) in Hr. injection Hr as Hx _ Hit _ _ _. rewrite <- Hx, <- Hit, B. auto.
+        - intros _ H0 H1 H2. destruct Hcase as [(A & _)|[(_ & A & _)|(_ & _ & _ & B & A)]]; try (exfalso; lra).
           assert (A' : c_conv c0 = true) by (rewrite A; apply Rleb_true; exact H2).
-          rewrite (Hstart A') in Hr. inversion Hr; subst. rewrite B. auto. }
+          rewrite (Hstart A') in Hr. injection Hr as Hx _ Hit _ _ _. rewrite <- Hx, <- Hit, B. auto. }
       destruct Hends as (He1 & He2 & He3).
       destruct H as (c & Hs & [(Hc & Hcv & E)|[(Hc & Hcv & Hge & E)|(Hc & Hz & E)]]); rewrite E in Hr; inversion Hr; subst; clear Hr.
       + refine (conj _ (conj _ (conj _ (conj He1 (conj He2 (conj He3 (conj _ (conj _ _)))))))).
@@ -547,11 +547,18 @@ Lemma cap_witness :
   is_nan_by IterCap (@rtsafe Q NumQr (@poly Q NumQr cubeQ) (@poly Q NumQr dcubeQ) (3 # 10)%Q (-1)%Q 1%Q 50 (1 # 10000000000000)%Q 0%Q) = true.
 Proof. split; vm_compute; reflexivity. Qed.
 
-(* same function and bracket, initial guess exactly at the (triple) root: F = 0 and DF = 0 -> the Newton branch computes 0/0 *)
-Lemma zero_over_zero_witness :
-  Qlt (@poly Q NumQr cubeQ (-1)%Q * @poly Q NumQr cubeQ 1%Q)%Q 0%Q /\
-  is_nan_by ZeroOverZero (@rtsafe Q NumQr (@poly Q NumQr cubeQ) (@poly Q NumQr dcubeQ) 0%Q (-1)%Q 1%Q 50 (1 # 10000000000000)%Q 0%Q) = true.
-Proof. split; vm_compute; reflexivity. Qed.
+(* same function and bracket, initial guess exactly at the (triple) root, where F = 0 and DF = 0: the repaired code accepts the
+   guess (|F| <= r_tol) before the loop; no 0/0 (before the fix this run ended in nan) *)
+Definition converges_at (v : Q) (r : @result Q) : bool :=
+  match r with Res (Some x) true it _ _ Converged => andb (Qeq_bool x v) (Qeq_bool it 0) | _ => false end.
+Lemma zero_slope_root_witness :
+  converges_at 0%Q (@rtsafe Q NumQr (@poly Q NumQr cubeQ) (@poly Q NumQr dcubeQ) 0%Q (-1)%Q 1%Q 50 (1 # 10000000000000)%Q 0%Q) = true.
+Proof. vm_compute. reflexivity. Qed.
+
+(* an iterate with F = 0 ends the iteration: with 0 <= r_tol the run never reaches the 0/0 state *)
+Lemma no_zero_over_zero (f df : R -> R) x_tol r_tol n x0 b0 b1 x cv it F dx w : 0 <= r_tol ->
+  rtsafe f df x0 b0 b1 n x_tol r_tol = Res x cv it F dx w -> w <> ZeroOverZero.
+Proof. intros Hr H. destruct (result_contract f df x_tol r_tol n x0 b0 b1 x cv it F dx w H) as (_ & _ & _ & _ & _ & _ & _ & A & _). exact (A Hr). Qed.
 
 (* ---------- differentiability: what custom_root's tangent solve and the implicit function theorem give ---------- *)
 From Coquelicot Require Import Coquelicot.
@@ -598,6 +605,9 @@ Ltac rb_one :=
   | |- context [Rltb ?a ?b] =>
       first [ replace (Rltb a b) with true by (symmetry; apply Rltb_true; unfold Rabs; repeat destruct (Rcase_abs _); lra)
             | replace (Rltb a b) with false by (symmetry; apply Rltb_false; unfold Rabs; repeat destruct (Rcase_abs _); lra) ]
+  | |- context [Rleb ?a ?b] =>
+      first [ replace (Rleb a b) with true by (symmetry; apply Rleb_true; unfold Rabs; repeat destruct (Rcase_abs _); lra)
+            | replace (Rleb a b) with false by (symmetry; apply Rleb_false; unfold Rabs; repeat destruct (Rcase_abs _); lra) ]
   | |- context [Reqb ?a ?b] =>
       first [ replace (Reqb a b) with true by (symmetry; apply Reqb_true; lra)
             | replace (Reqb a b) with false by (symmetry; apply Reqb_false; lra) ]
@@ -606,7 +616,7 @@ Lemma nonvacuous_run : exists v it F dx,
   rtsafe (fun x => x - 1 / 2) (fun _ => 1) 0 0 1 1 1 0 = Res (Some v) true it F dx Converged /\ (0 - 1 / 2) * (1 - 1 / 2) < 0.
 Proof.
   eexists _, _, _, _. split; [|lra].
-  unfold rtsafe, init, clip, nmin, nmax. unfold_num. q2r. cbn [Z.of_nat Pos.of_succ_nat].
+  unfold rtsafe, init, clip, nmin, nmax, nsign. unfold_num. q2r. cbn [Z.of_nat Pos.of_succ_nat].
   repeat (rb_one; cbn [negb andb orb]).
   cbn [wloop cond loop_cond]. unfold_num. q2r.
   repeat (rb_one; cbn [negb andb orb]).
